@@ -62,31 +62,34 @@ type Config struct {
 	// seed, DelayPermille of them) holds every task that reaches it back for DelayLen decisions.
 	DelayPermille int
 	DelayLen      int
+	// DelaySites: yield sites whose name contains one of these substrings always hold tasks back (targeted
+	// "buggify": e.g. the segment-selection code of a search, so that a rotation can complete inside it)
+	DelaySites []string
 }
 
 var (
-	on       atomic.Bool
-	started  atomic.Bool
-	mu       sync.Mutex
-	tasks    []*Task
-	byGid    = map[uint64]*Task{}
-	cur      *Task
-	kick     chan struct{}
-	seq      atomic.Uint64
-	cfg      Config
-	rng      *rand.Rand
+	on        atomic.Bool
+	started   atomic.Bool
+	mu        sync.Mutex
+	tasks     []*Task
+	byGid     = map[uint64]*Task{}
+	cur       *Task
+	kick      chan struct{}
+	seq       atomic.Uint64
+	cfg       Config
+	rng       *rand.Rand
 	choicePos int
-	fp       = fnv.New64a()
-	pending  []*Task // created before Run (package init time)
-	mainDone bool
-	switches uint64
-	adopted  int
-	stats    = map[string]uint64{}
+	fp        = fnv.New64a()
+	pending   []*Task // created before Run (package init time)
+	mainDone  bool
+	switches  uint64
+	adopted   int
+	stats     = map[string]uint64{}
 	// Hang reporting
-	OnHang func(dump string)
-	opStart    time.Time
-	opBudget   time.Duration
-	recentLog  []string
+	OnHang    func(dump string)
+	opStart   time.Time
+	opBudget  time.Duration
+	recentLog []string
 )
 
 // Init configures the scheduler. Must be called inside the bubble before Run.
@@ -232,7 +235,7 @@ func Park(site string) {
 	// point is always "the baton holder keeps running" (choice 0). It is taken - and counted and hashed -
 	// right here, without the round trip through the decision loop. The schedule is identical.
 	if cfg.PreemptPermille == 0 && choicePos >= len(cfg.Choices) && t == cur && t.st == stRunning &&
-		(cfg.DelayPermille == 0 || !siteSelectedLocked(site)) && len(stallRules) == 0 &&
+		(!delaysOn() || !siteSelectedLocked(site)) && len(stallRules) == 0 &&
 		(cfg.MaxDecisions == 0 || seq.Load() < cfg.MaxDecisions) {
 		t.site = site
 		n := seq.Add(1)
@@ -250,7 +253,7 @@ func Park(site string) {
 	}
 	t.st = stRunnable
 	t.site = site
-	if cfg.DelayPermille > 0 && siteSelectedLocked(site) {
+	if delaysOn() && siteSelectedLocked(site) {
 		t.delayed = seq.Load() + uint64(cfg.DelayLen)
 		stats["site_delays"]++
 	}
@@ -261,10 +264,17 @@ func Park(site string) {
 
 var siteSel = map[string]bool{}
 
+func delaysOn() bool { return cfg.DelayPermille > 0 || len(cfg.DelaySites) > 0 }
+
 func siteSelectedLocked(site string) bool {
 	v, ok := siteSel[site]
 	if !ok {
-		v = mix(strHash(site), cfg.Seed)%1000 < uint64(cfg.DelayPermille)
+		v = cfg.DelayPermille > 0 && mix(strHash(site), cfg.Seed)%1000 < uint64(cfg.DelayPermille)
+		for _, sub := range cfg.DelaySites {
+			if sub != "" && strings.Contains(site, sub) {
+				v = true
+			}
+		}
 		siteSel[site] = v
 		if v {
 			stats["delay_sites"]++
@@ -411,7 +421,7 @@ func Run(main func()) {
 				runnable = append(runnable, t)
 			}
 		}
-		if cfg.DelayPermille > 0 && len(runnable) > 0 {
+		if delaysOn() && len(runnable) > 0 {
 			cur := seq.Load()
 			var free []*Task
 			for _, t := range runnable {
